@@ -90,12 +90,19 @@ namespace protobuf_c {
 #pragma warning(disable:4996)
 #endif
 
+/* "-0" is the integer 0 negated, i.e. +0.0: make the text a floating constant */
+static std::string FloatingLiteral(const std::string &s) {
+  if (s.find_first_of(".eEn") == std::string::npos)
+    return s + ".0";
+  return s;
+}
+
 std::string SimpleFtoa(float f) {
   char buf[100];
   /* FLT_DIG digits do not identify a float; FLT_DIG + 3 (= 9) always do */
   snprintf(buf,sizeof(buf),"%.*g", FLT_DIG + 3, f);
   buf[sizeof(buf)-1] = 0;		/* should NOT be necessary */
-  return buf;
+  return FloatingLiteral(buf);
 }
 
 std::string SimpleDtoa(double d) {
@@ -103,7 +110,7 @@ std::string SimpleDtoa(double d) {
   /* DBL_DIG digits do not identify a double; DBL_DIG + 2 (= 17) always do */
   snprintf(buf,sizeof(buf),"%.*g", DBL_DIG + 2, d);
   buf[sizeof(buf)-1] = 0;		/* should NOT be necessary */
-  return buf;
+  return FloatingLiteral(buf);
 }
 
 std::string CamelToUpper(compat::StringView name) {
